@@ -146,7 +146,9 @@ func (pl *planter) genMap(depth int) (interface{}, interface{}) {
 		if old, have := pl.sigma[k]; have {
 			s, is := old.(string)
 			if !is {
-				return pl.leaf(depth, true)
+				// (not a variable: an array may call this for an element that must not be one)
+				c := g.Scalar()
+				return c, c
 			}
 			fk = s
 		} else if k != "?" {
